@@ -68,7 +68,7 @@ ValueMatches(v, txt) ==
   LET a == Canon(v) b == Canon(txt) IN
   IF Len(SigDigits(b)) <= 15 THEN a = b
   ELSE /\ Len(IntPart(a)) = Len(IntPart(b))
-       /\ SubSeq(SigDigits(a), 1, 15) = SubSeq(SigDigits(b), 1, 15)
+       /\ SubSeq(SigDigits(a) \o "000000000000000", 1, 15) = SubSeq(SigDigits(b), 1, 15)   \* the float may print fewer digits
 \* 1/n to 10 digits by long division (n < 10^8)
 RECURSIVE StrNat(_)
 StrNat(s) == IF s = "" THEN 0 ELSE StrNat(SubSeq(s, 1, Len(s) - 1)) * 10 + DigitVal(Ch(s, Len(s)))
